@@ -170,6 +170,10 @@ def library_crash(stderr):
         fn = ln.rsplit("(", 1)[0].strip()
         if fn.startswith(("runtime.", "sync.", "sync/", "internal/", "panic", "created by", "reflect.", "testing.")):
             continue
+        if fn.startswith("verifharness/internal/memnet."):
+            # the in-memory stand-ins for the socket layer: what they are handed comes straight from the library (a
+            # released message whose context is nil crashes the real net.UDPConn.writeWithCfg in the same way)
+            continue
         if fn.startswith(_LIB):
             return fn, m.group(1)[:200]
         # generic instantiations called through the driver keep the driver's package in their name: look at the file
